@@ -434,7 +434,7 @@ def run(ck):
                "server-side operation is fed to Model.Database and status code, lifecycle state, health, connection count, file and backup health are "
                "compared after each; the clauses of the property are also checked directly on client results; non-trivial = a history with a 200 answer")
     coq_props(ck)
-    gen_tie.check(ck, ["database"])
+    gen_tie.check(ck, ["database", "dbservice"])
     rng = ck.rng
     coq_in = []
     benches = []
